@@ -3,6 +3,8 @@ package main
 // Symbolic executor over go/ssa (naive form): generates obligations.
 
 import (
+	"time"
+	"os"
 	"fmt"
 	"go/constant"
 	"go/token"
@@ -62,6 +64,12 @@ type Exec struct {
 	nextBefore string
 	elemRange map[string]string
 	batch int
+	lazyHeaps map[string]string
+	lazyNext map[string]string
+	havocCtr int
+	tAsm, tSolve time.Duration
+	nFeas int
+	spec int // >0 while executing a block speculatively (only pure operations allowed)
 	Prop string
 	selfVal *Value
 	batchCtr int
@@ -332,13 +340,27 @@ func (x *Exec) heap(st *State, name, sort string) string {
 		return t
 	}
 	st.hsort[name] = sort
-	if st.heaps["!havoc:"+name] != "" || st.heaps["!havoc:*"] != "" {
-		// havocked before its first use on this path
-		st.heaps[name] = x.freshSort(name, sort)
-		if ax := x.birthAxiom(name, st.heaps[name], sort, x.nextTerm(st)); ax != "" {
-			st.assume(ax)
+	tok := st.heaps["!havoc:"+name]
+	if tok == "" {
+		tok = st.heaps["!havoc:*"]
+	}
+	if tok != "" {
+		// havocked before its first use on this path: one constant per havoc event,
+		// shared by the live state and its snapshots
+		key := name + "@" + tok
+		if x.lazyHeaps == nil {
+			x.lazyHeaps = map[string]string{}
 		}
-		return st.heaps[name]
+		c, ok := x.lazyHeaps[key]
+		if !ok {
+			c = x.freshSort(name, sort)
+			x.lazyHeaps[key] = c
+			if ax := x.birthAxiom(name, c, sort, x.lazyNext[tok]); ax != "" {
+				x.Reg.AddAxiom(c, c+"_born", "(assert "+ax+")")
+			}
+		}
+		st.heaps[name] = c
+		return c
 	}
 	x.Reg.Add(name, fmt.Sprintf("(declare-const %s %s)", name, sort))
 	if ax := x.birthAxiom(name, name, sort, x.alloc0()); ax != "" {
@@ -353,7 +375,7 @@ func (x *Exec) heap(st *State, name, sort string) string {
 func (x *Exec) birthAxiom(base, term, sort, bound string) string {
 	switch {
 	case sort == "(Array Int Slice)":
-		return fmt.Sprintf("(forall ((r Int)) (! (and (< (s_arr (select %s r)) %s) (= 0 (s_off (select %s r))) (<= 0 (s_len (select %s r))) (<= (s_len (select %s r)) (s_cap (select %s r)))) :pattern ((select %s r))))", term, bound, term, term, term, term, term)
+		return fmt.Sprintf("(forall ((r Int)) (! (and (< (s_arr (select %s r)) %s) (= 0 (s_off (select %s r))) (<= 0 (s_len (select %s r))) (<= (s_len (select %s r)) (s_cap (select %s r))) (<= (s_cap (select %s r)) 9223372036854775807)) :pattern ((select %s r))))", term, bound, term, term, term, term, term, term)
 	case sort == "(Array Int (Array Int Int))" && x.elemRange[base] != "":
 		return fmt.Sprintf("(forall ((a Int) (i Int)) (! (and (<= 0 (select (select %s a) i)) (<= (select (select %s a) i) %s)) :pattern ((select (select %s a) i))))", term, term, x.elemRange[base], term)
 	case sort == "(Array Int Int)" && x.refHeaps[base]:
@@ -671,7 +693,7 @@ func (x *Exec) typeInv(t string, typ types.Type) string {
 			return and(app("<=", "0", t), app("<=", t, intLit((1<<w)-1)))
 		}
 	case *types.Slice:
-		return and(app("<=", "0", app("s_off", t)), app("<=", "0", app("s_len", t)), app("<=", app("s_len", t), app("s_cap", t)))
+		return and(app("<=", "0", app("s_off", t)), app("<=", "0", app("s_len", t)), app("<=", app("s_len", t), app("s_cap", t)), app("<=", app("s_cap", t), "9223372036854775807"))
 	}
 	return "true"
 }
@@ -875,11 +897,36 @@ func (x *Exec) run(st *State) {
 				}
 				continue
 			}
+			// collapse short-circuit chains (a && b, a || b) whose right operands are pure
+			ct := x.term(c)
+			for {
+				nct, ok := x.tryCollapse(st, fr, ct)
+				if !ok {
+					break
+				}
+				ct = nct
+			}
+			if v, ok := st.known(ct); ok {
+				if v {
+					ct = "true"
+				} else {
+					ct = "false"
+				}
+			}
+			if ct == "true" || ct == "false" {
+				succ := 0
+				if ct == "false" {
+					succ = 1
+				}
+				if !x.gotoBlock(st, fr.Block.Succs[succ]) {
+					return
+				}
+				continue
+			}
 			x.paths++
 			if x.paths > x.maxPaths {
 				x.limit("path explosion (> %d paths)", x.maxPaths)
 			}
-			ct := x.term(c)
 			st2 := st.clone()
 			st.assume(ct)
 			st.note("%s b%d(%s): %s", x.P.FuncName(fr.Fn), fr.Block.Index, fr.Block.Comment, "then")
@@ -887,7 +934,13 @@ func (x *Exec) run(st *State) {
 			st2.note("%s b%d(%s): %s", x.P.FuncName(fr.Fn), fr.Block.Index, fr.Block.Comment, "else")
 			b0, b1 := fr.Block.Succs[0], fr.Block.Succs[1]
 			x.forks++
-			prune := x.forks > 24 // only functions with many branches pay for feasibility checks
+			if os.Getenv("GOVC_DEBUG") == "2" {
+				fmt.Fprintf(os.Stderr, "FORK %s b%d %s\n", x.P.FuncName(fr.Fn), fr.Block.Index, x.P.Pos(instrPos(ins)))
+			}
+			if os.Getenv("GOVC_DEBUG") != "" && x.forks%100 == 0 {
+				fmt.Fprintf(os.Stderr, "[%s] forks=%d pruned=%d obls=%d depth=%d at %s b%d feas=%d asm=%v solve=%v items=%d\n", x.fname, x.forks, x.pruned, len(x.obls), len(st.frames), x.P.FuncName(fr.Fn), fr.Block.Index, x.nFeas, x.tAsm, x.tSolve, len(st.items))
+			}
+			prune := x.forks > 24 && x.forks%1 == 0 // only functions with many branches pay for feasibility checks
 			if !(prune && !x.feasible(st2)) {
 				if x.gotoBlock(st2, b1) {
 					x.run(st2)
@@ -939,6 +992,126 @@ func (x *Exec) run(st *State) {
 	}
 }
 
+type specAbort struct{}
+
+// tryCollapse: the current block ends in `if c goto T else F` (or `goto B else T`).
+// If T has this block as its only predecessor, consists of pure instructions and
+// ends in an If sharing the false (true) successor, T is executed speculatively
+// under the guard and the two tests are merged into one condition, so that no
+// path is forked for the short-circuit operator.
+func (x *Exec) tryCollapse(st *State, fr *Frame, ct string) (string, bool) {
+	cur := fr.Block
+	if len(cur.Succs) != 2 {
+		return "", false
+	}
+	for _, isAnd := range []bool{true, false} {
+		var T, other *ssa.BasicBlock
+		if isAnd {
+			T, other = cur.Succs[0], cur.Succs[1]
+		} else {
+			T, other = cur.Succs[1], cur.Succs[0]
+		}
+		if len(T.Preds) != 1 || T == cur || len(T.Instrs) == 0 {
+			continue
+		}
+		tif, ok := T.Instrs[len(T.Instrs)-1].(*ssa.If)
+		if !ok {
+			continue
+		}
+		if isAnd && T.Succs[1] != other {
+			continue
+		}
+		if !isAnd && T.Succs[0] != other {
+			continue
+		}
+		if x.isLoopHeader(fr.Fn, T) {
+			continue
+		}
+		guard := ct
+		if !isAnd {
+			guard = not(ct)
+		}
+		// speculative execution on a clone
+		st2 := st.clone()
+		fr2 := st2.top()
+		n0 := len(st2.items)
+		st2.assume(guard)
+		nGuard := len(st2.items)
+		oblN := len(x.obls)
+		fr2.Prev, fr2.Block, fr2.Idx = cur, T, 0
+		okSpec := true
+		func() {
+			defer func() {
+				if r := recover(); r != nil {
+					if _, isAbort := r.(specAbort); isAbort {
+						okSpec = false
+						return
+					}
+					panic(r)
+				}
+			}()
+			x.spec++
+			defer func() { x.spec-- }()
+			for _, ins := range T.Instrs[:len(T.Instrs)-1] {
+				switch ins.(type) {
+				case *ssa.DebugRef:
+					continue
+				case *ssa.UnOp, *ssa.BinOp, *ssa.FieldAddr, *ssa.Field, *ssa.IndexAddr, *ssa.Index, *ssa.Extract, *ssa.TypeAssert, *ssa.ChangeType, *ssa.Convert, *ssa.Call, *ssa.Phi, *ssa.Lookup, *ssa.MakeInterface, *ssa.Slice:
+				default:
+					panic(specAbort{})
+				}
+				depth := len(st2.frames)
+				x.step(st2, fr2, ins)
+				if len(st2.frames) != depth || st2.dead {
+					panic(specAbort{})
+				}
+			}
+		}()
+		if !okSpec {
+			x.obls = x.obls[:oblN]
+			continue
+		}
+		c2 := x.get(st2, tif.Cond)
+		c2t := x.term(c2)
+		// adopt: registers of T, guarded facts, allocation counter
+		for k, v := range fr2.Regs {
+			if _, have := fr.Regs[k]; !have {
+				fr.Regs[k] = v
+			}
+		}
+		_ = n0
+		for _, it := range st2.items[nGuard:] {
+			if it.Def != "" {
+				st.items = append(st.items, it)
+			} else {
+				st.items = append(st.items, Item{Term: implies(guard, it.Term)})
+			}
+		}
+		if v, ok := st2.heaps["!next"]; ok {
+			st.heaps["!next"] = v
+		}
+		for k, v := range st2.callNo {
+			st.callNo[k] = v
+		}
+		fr.Prev, fr.Block = cur, T
+		fr.Idx = len(T.Instrs)
+		if isAnd {
+			return and(ct, c2t), true
+		}
+		return or(ct, c2t), true
+	}
+	return "", false
+}
+
+func (x *Exec) isLoopHeader(fn *ssa.Function, b *ssa.BasicBlock) bool {
+	for _, l := range x.P.Loops(fn) {
+		if l.Header == b {
+			return true
+		}
+	}
+	return false
+}
+
 // feasible asks the solver whether the path condition is satisfiable; only a
 // definite unsat prunes the path.
 func (x *Exec) feasible(st *State) bool {
@@ -951,9 +1124,14 @@ func (x *Exec) feasible(st *State) bool {
 		items = append(items, it)
 	}
 	o := &Obligation{Name: "feasibility", Goal: "false", ExpectSat: true, Items: items}
+	t0 := time.Now()
 	script := assembleScript(x.Reg, o, false, false, false)
 	script = stripQuantifiedDecls(script)
+	x.tAsm += time.Since(t0)
+	t1 := time.Now()
 	sr := quickSolve(script, 1)
+	x.tSolve += time.Since(t1)
+	x.nFeas++
 	if sr == "unsat" {
 		x.pruned++
 		return false
@@ -1003,9 +1181,9 @@ func (x *Exec) gotoBlock(st *State, b *ssa.BasicBlock) bool {
 				open = true
 			}
 		}
-		if len(x.loopClauses(fr, l)) == 0 {
+		if len(x.loopClauses(fr, l)) == 0 && !x.hasLoopExtras(fr, l) {
 			// no invariant: unroll while control flow stays concretely decidable
-			key := fmt.Sprintf("!unroll:%p:%d", fr, l.Ordinal)
+			key := fmt.Sprintf("!unroll:%s:%d:%d", fr.Fn.Name(), len(st.frames), l.Ordinal)
 			n := 0
 			fmt.Sscanf(st.heaps[key], "%d", &n)
 			n++
@@ -1021,13 +1199,16 @@ func (x *Exec) gotoBlock(st *State, b *ssa.BasicBlock) bool {
 			fr.Prev, fr.Block, fr.Idx = fr.Block, b, 0
 			x.checkLoopInv(st, fr, l, "preserved")
 			x.checkLoopVariant(st, fr, l)
+			x.checkLoopSteps(st, fr, l)
 			return false
 		}
 		fr.Prev, fr.Block, fr.Idx = fr.Block, b, 0
 		x.checkLoopInv(st, fr, l, "entry")
 		x.havocLoop(st, fr, l)
 		x.assumeLoopInv(st, fr, l)
+		x.assumeLoopHyps(st, fr, l)
 		x.recordLoopVariant(st, fr, l)
+		x.recordLoopHead(st, fr, l)
 		fr.Open = append(fr.Open, l)
 		return true
 	}
@@ -1084,9 +1265,24 @@ func (x *Exec) loopFrame(st *State, fr *Frame, l *Loop, assume bool, phase strin
 	}
 }
 
+// outerHead: the recorded head state of an enclosing loop of l in this function (for prev() in inner-loop invariants).
+func (x *Exec) outerHead(st *State, fr *Frame, l *Loop) *State {
+	var best *State
+	for _, o := range x.P.Loops(fr.Fn) {
+		if o == l || !o.Blocks[l.Header] {
+			continue
+		}
+		if h := st.heads[fmt.Sprintf("%p:%d", fr.Fn, o.Ordinal)]; h != nil {
+			best = h
+		}
+	}
+	return best
+}
+
 func (x *Exec) checkLoopInv(st *State, fr *Frame, l *Loop, phase string) {
 	x.loopFrame(st, fr, l, false, phase)
 	env := x.envFor(st, x.entry, fr)
+	env.prev = x.outerHead(st, fr, l)
 	for i, cl := range x.loopClauses(fr, l) {
 		label := cl.Label
 		if label == "" {
@@ -1111,6 +1307,58 @@ func (x *Exec) checkLoopInv(st *State, fr *Frame, l *Loop, phase string) {
 		}
 		g := x.evalBool(env, cl.Expr)
 		x.oblige(st, fmt.Sprintf("loop%d/%s", l.Ordinal, phase), label, cl.Props, g, cl.Where, cl.Src)
+	}
+}
+
+func (x *Exec) hasLoopExtras(fr *Frame, l *Loop) bool {
+	fc := x.contractOfFrame(fr)
+	if fc == nil {
+		return false
+	}
+	return len(fc.LoopAssume[l.Ordinal]) > 0 || len(fc.LoopStep[l.Ordinal]) > 0 || len(fc.LoopVar[l.Ordinal]) > 0
+}
+
+func (x *Exec) assumeLoopHyps(st *State, fr *Frame, l *Loop) {
+	fc := x.contractOfFrame(fr)
+	if fc == nil {
+		return
+	}
+	env := x.envFor(st, x.entry, fr)
+	for _, cl := range fc.LoopAssume[l.Ordinal] {
+		st.assume(x.evalBool(env, cl.Expr))
+	}
+}
+
+func (x *Exec) recordLoopHead(st *State, fr *Frame, l *Loop) {
+	fc := x.contractOfFrame(fr)
+	if fc == nil || len(fc.LoopStep[l.Ordinal]) == 0 {
+		return
+	}
+	nh := map[string]*State{}
+	for k, v := range st.heads {
+		nh[k] = v
+	}
+	nh[fmt.Sprintf("%p:%d", fr.Fn, l.Ordinal)] = st.snapshot()
+	st.heads = nh
+}
+
+func (x *Exec) checkLoopSteps(st *State, fr *Frame, l *Loop) {
+	fc := x.contractOfFrame(fr)
+	if fc == nil {
+		return
+	}
+	head := st.heads[fmt.Sprintf("%p:%d", fr.Fn, l.Ordinal)]
+	if head == nil {
+		return
+	}
+	env := x.envFor(st, x.entry, fr)
+	env.prev = head
+	for i, cl := range fc.LoopStep[l.Ordinal] {
+		label := cl.Label
+		if label == "" {
+			label = fmt.Sprint(i + 1)
+		}
+		x.oblige(st, fmt.Sprintf("loop%d/step", l.Ordinal), label, cl.Props, x.evalBool(env, cl.Expr), cl.Where, cl.Src)
 	}
 }
 
@@ -1157,14 +1405,29 @@ func (x *Exec) checkLoopVariant(st *State, fr *Frame, l *Loop) {
 func (x *Exec) assumeLoopInv(st *State, fr *Frame, l *Loop) {
 	x.loopFrame(st, fr, l, true, "")
 	env := x.envFor(st, x.entry, fr)
+	env.prev = x.outerHead(st, fr, l)
 	for _, cl := range x.loopClauses(fr, l) {
 		st.assume(x.evalBool(env, cl.Expr))
+	}
+	// local slices whose offset the invariant fixes to 0: use the literal, so that
+	// index terms stay free of symbolic offsets
+	for c, v := range st.cells {
+		if v == nil || v.T == "" || v.Typ == nil || strings.HasPrefix(v.T, "(mk_slice ") {
+			continue
+		}
+		if _, ok := v.Typ.Underlying().(*types.Slice); !ok {
+			continue
+		}
+		if st.facts[eq(app("s_off", v.T), "0")] {
+			st.cells[c] = &Value{T: app("mk_slice", app("s_arr", v.T), "0", app("s_len", v.T), app("s_cap", v.T)), Typ: v.Typ}
+		}
 	}
 }
 
 // havocLoop forgets everything the loop body may modify.
 func (x *Exec) havocLoop(st *State, fr *Frame, l *Loop) {
 	ws := x.Eff.LoopWrites(fr.Fn, l)
+	x.bumpNext(st)
 	// cells of this frame
 	for al := range ws.Allocs {
 		p, ok := fr.Allocs[al]
@@ -1181,6 +1444,7 @@ func (x *Exec) havocLoop(st *State, fr *Frame, l *Loop) {
 			}
 			nv := x.fresh(p.Cell.Name, p.Cell.Typ)
 			x.assumeTypeInv(st, nv)
+			x.assumeAllocated(st, nv)
 			st.cells[p.Cell] = nv
 		} else if p.Kind == PObj {
 			x.havocObject(st, p)
@@ -1198,7 +1462,6 @@ func (x *Exec) havocLoop(st *State, fr *Frame, l *Loop) {
 			}
 		}
 	}
-	x.bumpNext(st)
 	x.havocClasses(st, ws.Classes)
 }
 
@@ -1218,6 +1481,24 @@ func (x *Exec) havocObject(st *State, p *Pointer) {
 		fv := x.freshSort("hv", x.Sorts.SortOf(p.Obj))
 		x.setHeap(st, hn, hs, app("store", h, p.Ref, fv))
 	}
+}
+
+// havocToken names one havoc event; the allocation bound at that time is kept for birth axioms.
+func (x *Exec) havocToken(st *State) string {
+	x.havocCtr++
+	tok := fmt.Sprintf("h%d", x.havocCtr)
+	if x.lazyNext == nil {
+		x.lazyNext = map[string]string{}
+	}
+	n := x.nextTerm(st)
+	// the bound must be a plain constant to be usable in a registry axiom
+	if strings.ContainsAny(n, "( ") {
+		c := x.freshSort("nextat", "Int")
+		st.assume(eq(c, n))
+		n = c
+	}
+	x.lazyNext[tok] = n
+	return tok
 }
 
 // havocClasses forgets the named location classes (see effects.go).
@@ -1242,7 +1523,7 @@ func (x *Exec) havocClasses(st *State, classes map[string]bool) {
 			// will be declared as the entry constant... which would be wrong after a
 			// havoc. Record the havoc so a later first use gets a fresh name.
 			if _, ok := st.hsort[c]; !ok {
-				st.heaps["!havoc:"+c] = "1"
+				st.heaps["!havoc:"+c] = x.havocToken(st)
 			}
 		}
 	}
